@@ -43,7 +43,7 @@ func VerifC09ChooseOne() {
 		lo += w[i]
 	}
 	vs.Assert("bucket-lower", lo <= lucky)
-	vs.Assert("bucket-upper", lucky-lo < w[idx])
+	vs.Assert("bucket-upper", lo+w[idx] > lucky)
 	for i := range w {
 		vs.Assert("weights-not-modified", in[i] == w[i])
 	}
